@@ -14,11 +14,11 @@ use vengine::Tier;
 pub enum Shape {
     /// X = G
     Iso,
-    /// X = G · diag(10^(-r·j/(p-1))) · Q, Q = Gram–Schmidt of `mix` (population singular ratio 10^r, r ≤ 3)
+    /// X = G · diag(10^(-r·j/(p-1))) · Q, Q = Gram–Schmidt of `mix` (population singular ratio 10^r, r ≤ 2.7)
     Aniso { log_ratio: f64 },
-    /// X = G[:, ..rank] · mix[..rank, :] + noise · G (noise relative to the unit loadings, ≥ 1e-3)
+    /// X = S·sqrt(n)/|S|_F + noise · G', S = G[:, ..rank] · mix[..rank, :] (noise 2e-3..1e-1 of the largest signal singular value)
     LowRank { rank: usize, noise: f64 },
-    /// X = G · diag(10^((e_j − max e) / 2)), e_j ∈ −6..=0 (badly scaled columns, column scales 1e-3..1, singular ratio ≤ ~1e3)
+    /// X = G · diag(10^((e_j − max e) / 2)), e_j ∈ −5..=0 (badly scaled columns, column scales 3e-3..1)
     Scaled { half_exps: Vec<i8> },
 }
 
@@ -113,6 +113,7 @@ pub fn build_x(c: &Case) -> Mat {
         }
         Shape::LowRank { rank, noise } => {
             let r = (*rank).min(p);
+            let mut fro2 = 0.0;
             for i in 0..n {
                 for j in 0..p {
                     let mut v = 0.0;
@@ -120,9 +121,19 @@ pub fn build_x(c: &Case) -> Mat {
                         let w = c.mix.get(l).and_then(|row| row.get(j)).copied().unwrap_or(0.0);
                         v += g(i, l) * w;
                     }
-                    // the noise uses the columns of G cyclically shifted by `r`, so that it is not
-                    // the same draw as the factor scores
-                    x[i][j] = v + noise * g(i, (j + r) % p) * if (i + j) % 2 == 0 { 1.0 } else { -1.0 };
+                    x[i][j] = v;
+                    fro2 += v * v;
+                }
+            }
+            // signal normalised to Frobenius norm sqrt(n) (largest singular value <= sqrt(n), = for rank 1);
+            // the noise matrix noise·G' has singular values about noise·(sqrt(n) ± sqrt(p))
+            let f = if fro2 > 0.0 { (n as f64 / fro2).sqrt() } else { 0.0 };
+            for i in 0..n {
+                for j in 0..p {
+                    // the noise uses the columns of G cyclically shifted by `r` with alternating signs, so
+                    // that it is not the same draw as the factor scores
+                    let e = g(i, (j + r) % p) * if (i + j) % 2 == 0 { 1.0 } else { -1.0 };
+                    x[i][j] = x[i][j] * f + noise * e;
                 }
             }
         }
@@ -147,13 +158,13 @@ pub fn build_x(c: &Case) -> Mat {
 }
 
 fn shape_strategy(p: usize) -> BoxedStrategy<Shape> {
-    let aniso = (0u16..=1000).prop_map(|v| Shape::Aniso { log_ratio: 3.0 * v as f64 / 1000.0 });
-    let scaled = proptest::collection::vec(-6i8..=0, p).prop_map(|half_exps| Shape::Scaled { half_exps });
+    let aniso = (0u16..=1000).prop_map(|v| Shape::Aniso { log_ratio: 2.7 * v as f64 / 1000.0 });
+    let scaled = proptest::collection::vec(-5i8..=0, p).prop_map(|half_exps| Shape::Scaled { half_exps });
     if p >= 2 {
         let lowrank = (any::<u16>(), 0u16..=1000).prop_map(move |(r, v)| Shape::LowRank {
             rank: 1 + idx(r, p - 1),
-            // 1e-3 ..= 1e-1, log-uniform
-            noise: 10f64.powf(-3.0 + 2.0 * v as f64 / 1000.0),
+            // 2e-3 ..= 1e-1 of the largest signal singular value, log-uniform
+            noise: 10f64.powf(-2.7 + 1.7 * v as f64 / 1000.0),
         });
         prop_oneof![2 => Just(Shape::Iso), 3 => aniso, 3 => lowrank, 2 => scaled].boxed()
     } else {
